@@ -62,6 +62,8 @@ class Run:
         return ok
 
     def violation(self, rule, key, msg, where=None, detail=None):
+        if any(v["key"] == key for v in self.violations):
+            return
         self.violations.append({"rule": rule, "key": key, "msg": str(msg)[:2000], "where": where, "detail": detail})
 
     def floor(self, name, count, minimum):
